@@ -536,6 +536,9 @@ func (p *c07) Run(raw json.RawMessage) eng.Result {
 					}
 					ss.seen[sig] = true
 					rc := c07Case{Part: "one", Via: c.Via, Target: target, Query: q.text}
+					if c.Tree == "recur" {
+						rc.Tree = "recur" // selects the schema
+					}
 					tj, _ := json.Marshal(t.ToJSONObj(m.DataDefinitions()))
 					rc.Doc = string(tj)
 					res.AddCase(sig, fmt.Sprintf("%s on %q of %s: %s", q.text, target, t, what), rc)
